@@ -121,11 +121,25 @@ structure TInst where
   flat : Str                -- `typemap.template_suffix` or `"_" + flat_name` of the first argument
   deriving Repr, DecidableEq
 
-/-- `template_function`: "Use explicit template_suffix if provided ..." (`iargs` = index). -/
-def TInst.suffix (t : TInst) (iargs : Nat) : Str :=
+/-- The suffix derived from the template arguments: the type's suffix for a single argument,
+    else the sequence number. -/
+def TInst.derived (t : TInst) (iargs : Nat) : Str :=
+  if t.nargs == 1 then t.flat else autoSuffix iargs
+
+/-- `template_function`: "Use explicit template_suffix if provided ..." (`iargs` = index);
+    `if fmt.template_suffix: pass` also sees a `template_suffix` inherited from an enclosing
+    class instantiation (`inherited`). -/
+def TInst.suffix (t : TInst) (inherited : Str) (iargs : Nat) : Str :=
   match t.explicit with
   | some (c :: cs) => c :: cs
-  | _ => if t.nargs == 1 then t.flat else autoSuffix iargs
+  | _ => if inherited.isEmpty then t.derived iargs else inherited
+
+/-- `instantiate_classes`: `class_suffix` -- an explicit `template_suffix` counts as soon as
+    the key is present (even empty). -/
+def TInst.classSuffix (t : TInst) (i : Nat) : Str :=
+  match t.explicit with
+  | some s => s
+  | none => t.derived i
 
 /-- A function declaration of the input. -/
 structure Fn where
@@ -138,6 +152,7 @@ structure Fn where
   generics : List (Option Str) -- fortran_generic entries: explicit function_suffix or none
   hasBuf : Bool                -- an argument needs a bufferify clone (std::string), kept by every clone
   isCtor : Bool
+  usesT : Bool                 -- `have_template_args`: result/argument of a class template parameter type
   deriving Repr, DecidableEq
 
 structure Wrap where
@@ -159,6 +174,7 @@ structure Scope where
   fScope : Str       -- F_name_scope
   derived : Str      -- F_derived_name (classes)
   isClass : Bool     -- the functions are class members
+  tsfx0 : Str        -- template_suffix inherited from a class instantiation (`format: template_suffix`)
   w0 : Wrap
   deriving Repr, DecidableEq
 
@@ -178,6 +194,7 @@ structure Rec where
   hasBuf : Bool
   isCtor : Bool
   key : Str               -- key in `overloaded_functions`
+  hasDefault : Bool       -- a parameter of the declaration has a default value
   deriving Repr, DecidableEq
 
 /-- `clean_dictionary`: `function_suffix=dct.get("function_suffix", "_" + str(isuffix))`. -/
@@ -188,10 +205,11 @@ def genericSuffixes : Nat → List (Option Str) → List Str
 
 def Fn.base (sc : Scope) (f : Fn) : Rec :=
   { name := f.name, arity := f.nparams, fullArity := f.nparams, gen := .none, wrap := sc.w0,
-    sfx := f.suffix.getD [], sfxLocal := f.suffix.isSome, tsfx := [], overloaded := false,
-    templated := !f.tinst.isEmpty, generics := genericSuffixes 0 f.generics,
+    sfx := f.suffix.getD [], sfxLocal := f.suffix.isSome, tsfx := sc.tsfx0, overloaded := false,
+    templated := !f.tinst.isEmpty || f.usesT, generics := genericSuffixes 0 f.generics,
     hasBuf := f.hasBuf, isCtor := f.isCtor,
-    key := if f.isCtor then sc.derived else f.name }
+    key := if f.isCtor then sc.derived else f.name,
+    hasDefault := decide (f.ndefaults > 0) }
 
 /-- `has_default_args`: the `k`-th clone (parameters `[:nparams - ndefaults + k]`). -/
 def defaultClone (sc : Scope) (f : Fn) (k : Nat) : Rec :=
@@ -215,15 +233,53 @@ def original (sc : Scope) (f : Fn) : Rec :=
 def templateClones (o : Rec) (w0 : Wrap) : Nat → List TInst → List Rec
   | _, [] => []
   | i, t :: ts =>
-    { o with gen := .cxxTemplate, wrap := w0, tsfx := t.suffix i, overloaded := true }
+    { o with gen := .cxxTemplate, wrap := w0, tsfx := t.suffix o.tsfx i, overloaded := true }
       :: templateClones o w0 (i + 1) ts
 
-/-- First loop of `define_function_suffix` for one declared function. -/
+/-- `has_default_args` applied to an instantiated template clone `c`: the `k`-th variant. -/
+def variantClone (f : Fn) (c : Rec) (k : Nat) : Rec :=
+  { c with
+    arity := f.nparams - f.ndefaults + k
+    gen := .defaultArg
+    wrap := ⟨c.wrap.c, c.wrap.f, false, false⟩
+    sfx := match f.dsuffix[k]? with
+      | some s => s
+      | none => c.sfx
+    sfxLocal := (f.dsuffix[k]?).isSome || c.sfxLocal }
+
+/-- The instantiated clone itself after `has_default_args`. -/
+def variantLast (f : Fn) (c : Rec) : Rec :=
+  match f.dsuffix[f.ndefaults]? with
+  | some s => { c with sfx := s, sfxLocal := true }
+  | none => c
+
+/-- "Template clones are not part of the overload numbering; number the variants here." -/
+def numberVariants : Nat → List Rec → List Rec
+  | _, [] => []
+  | i, r :: rest =>
+    (if r.sfxLocal then r else { r with sfx := autoSuffix i }) :: numberVariants (i + 1) rest
+
+/-- Default-argument variants of one instantiation, numbered. -/
+def variants (f : Fn) (c : Rec) : List Rec :=
+  numberVariants 0 ((List.range f.ndefaults).map (variantClone f c) ++ [variantLast f c])
+
+/-- First loop of `define_function_suffix` for one declared function.  A function template
+    with default arguments is instantiated first; the default-argument variants are made per
+    instantiation. -/
 def stage1Fn (sc : Scope) (f : Fn) : List Rec :=
-  (List.range f.ndefaults).map (defaultClone sc f) ++
-  (if f.tinst.isEmpty then [original sc f]
-   else { original sc f with overloaded := true, wrap := ⟨false, false, false, false⟩ }
-          :: templateClones (original sc f) sc.w0 0 f.tinst)
+  if f.tinst.isEmpty then
+    (List.range f.ndefaults).map (defaultClone sc f) ++
+     (if f.usesT then
+        -- `template_function2`: the declared node is switched off, one clone is wrapped
+        [{ original sc f with wrap := ⟨false, false, false, false⟩ },
+         { original sc f with gen := .cxxTemplate, wrap := sc.w0 }]
+      else [original sc f])
+  else if f.ndefaults = 0 then
+    { f.base sc with overloaded := true, wrap := ⟨false, false, false, false⟩ }
+      :: templateClones (f.base sc) sc.w0 0 f.tinst
+  else
+    { f.base sc with overloaded := true, wrap := ⟨false, false, false, false⟩ }
+      :: (templateClones (f.base sc) sc.w0 0 f.tinst).flatMap (variants f)
 
 def stage1 (sc : Scope) (fs : List Fn) : List Rec := fs.flatMap (stage1Fn sc)
 
@@ -344,12 +400,47 @@ def tableGet (key : Str) : List (Str × List Str) → List Str
   | [] => []
   | (k, vs) :: rest => if k = key then vs else tableGet key rest
 
+/-! ## Python and Lua method tables (`wrapp.wrap_functions` / `multi_dispatch`, `wrapl.wrap_functions`) -/
+
+/-- Keep the first occurrence of every element (Python dict insertion order). -/
+def dedupAux : List Str → List Str → List Str
+  | _, [] => []
+  | seen, a :: rest => if a ∈ seen then dedupAux seen rest else a :: dedupAux (a :: seen) rest
+def dedup (l : List Str) : List Str := dedupAux [] l
+
+/-- `overloaded_methods[name]`: the Python-wrapped nodes of one C++ name. -/
+def pyCount (recs : List Rec) (n : Str) : Nat := recs.countP fun r => r.wrap.py && r.name == n
+
+/-- A wrapper that gets its own `PyMethodDef` entry: Python-wrapped, not a constructor, the only
+    one of its name. -/
+def pySingle (recs : List Rec) (r : Rec) : Bool :=
+  r.wrap.py && !r.isCtor && pyCount recs r.name == 1
+
+/-- `"{function_name}{function_suffix}{template_suffix}"`; a wrapper that handles default
+    arguments itself is entered without function suffix. -/
+def pyKey (r : Rec) : Str := r.name ++ ((if r.hasDefault then [] else r.sfx) ++ r.tsfx)
+
+/-- Names that get a multi-dispatch entry: two or more Python-wrapped nodes, not constructors. -/
+def pyDispatch (recs : List Rec) : List Str :=
+  (dedup ((recs.filter fun r => r.wrap.py && !r.isCtor).map (·.name))).filter fun n => pyCount recs n ≥ 2
+
+/-- Keys of the `PyMethodDef` table of a scope in order: single wrappers while wrapping, then
+    the dispatchers. -/
+def pyTable (recs : List Rec) : List Str :=
+  (recs.filter (pySingle recs)).map pyKey ++ pyDispatch recs
+
+/-- Keys of the `luaL_Reg` entries a scope contributes: one per C++ name of the Lua-wrapped
+    nodes (`LUA_name = function_name`); constructors are registered under the class name. -/
+def luaTable (recs : List Rec) : List Str :=
+  dedup ((recs.filter fun r => r.wrap.lua && !r.isCtor).map (·.name))
+
 /-! ## scopes from a declaration path -/
 
 inductive PathSeg where
   | ns (name : Str)
   | nsf (name : Str)     -- namespace with option F_flatten_namespace
   | cls (name : Str)
+  | clsT (name : Str) (t : TInst) (i : Nat)   -- i-th instantiation of a class template
   deriving Repr, DecidableEq
 
 /-- `NamespaceNode.default_format` / `ClassNode.default_format` (default options:
@@ -366,9 +457,19 @@ def scopeOf (cPrefix : Str) (w0 : Wrap) : List PathSeg → Scope → Scope
     scopeOf cPrefix w0 rest
       { sc with cScope := sc.cScope ++ n ++ ['_'], fScope := sc.fScope ++ lower n ++ ['_'],
                 derived := lower n, isClass := true }
+  | .clsT n t i :: rest, sc =>
+    -- `instantiate_classes`: cxx_class = name + class_suffix; the instantiation's format
+    -- dictionary (template_suffix) is copied into the class
+    scopeOf cPrefix w0 rest
+      { sc with cScope := sc.cScope ++ (n ++ t.classSuffix i) ++ ['_'],
+                fScope := sc.fScope ++ lower (n ++ t.classSuffix i) ++ ['_'],
+                derived := lower (n ++ t.classSuffix i), isClass := true,
+                tsfx0 := match t.explicit with
+                  | some s => s
+                  | none => sc.tsfx0 }
 
 def rootScope (cPrefix : Str) (w0 : Wrap) : Scope :=
-  { cPrefix := cPrefix, cScope := [], fScope := [], derived := [], isClass := false, w0 := w0 }
+  { cPrefix := cPrefix, cScope := [], fScope := [], derived := [], isClass := false, tsfx0 := [], w0 := w0 }
 
 /-- `LibraryNode.default_format`: `C_prefix = library.upper()[:3] + "_"` (ASCII). -/
 def toUpper (c : Char) : Char := if isLower c then Char.ofNat (c.toNat - 32) else c
